@@ -3,6 +3,23 @@
 namespace SymEngine
 {
 
+// __eq__ compares constant polynomials (no term, or one term whose exponents
+// are all zero) without regard to the generators, so the hash of a constant
+// polynomial must not depend on the generators either.
+template <typename Dict>
+static bool is_constant_dict(const Dict &d)
+{
+    if (d.empty())
+        return true;
+    if (d.size() != 1)
+        return false;
+    for (auto e : d.begin()->first) {
+        if (e != 0)
+            return false;
+    }
+    return true;
+}
+
 RCP<const Basic> MIntPoly::as_symbolic() const
 {
     vec_basic args;
@@ -22,11 +39,14 @@ RCP<const Basic> MIntPoly::as_symbolic() const
 hash_t MIntPoly::__hash__() const
 {
     hash_t seed = SYMENGINE_MINTPOLY;
-    for (auto var : get_vars())
-        hash_combine<std::string>(seed, var->__str__());
+    const bool constant = is_constant_dict(get_poly().dict_);
+    if (not constant) {
+        for (auto var : get_vars())
+            hash_combine<std::string>(seed, var->__str__());
+    }
 
     for (auto &p : get_poly().dict_) {
-        hash_t t = vec_hash<vec_uint>()(p.first);
+        hash_t t = constant ? 0 : vec_hash<vec_uint>()(p.first);
         hash_combine<hash_t>(t, mp_get_si(p.second));
         seed ^= t;
     }
@@ -70,11 +90,14 @@ RCP<const Basic> MExprPoly::as_symbolic() const
 hash_t MExprPoly::__hash__() const
 {
     hash_t seed = SYMENGINE_MEXPRPOLY;
-    for (auto var : get_vars())
-        hash_combine<std::string>(seed, var->__str__());
+    const bool constant = is_constant_dict(get_poly().dict_);
+    if (not constant) {
+        for (auto var : get_vars())
+            hash_combine<std::string>(seed, var->__str__());
+    }
 
     for (auto &p : get_poly().dict_) {
-        hash_t t = vec_hash<vec_int>()(p.first);
+        hash_t t = constant ? 0 : vec_hash<vec_int>()(p.first);
         hash_combine<Basic>(t, *(p.second.get_basic()));
         seed ^= t;
     }
